@@ -407,6 +407,13 @@ class NamedObject:
 
   def _elaborate_collect_all_named_objects( s ):
     s._dsl.all_named_objects = s._collect_all_single()
+    # A hardware object that was put into an already assigned list
+    # ( s.x.append( obj ), s.x[i] = obj ) was never named nor constructed
+    for x in s._dsl.all_named_objects:
+      if not hasattr( x._dsl, "full_name" ):
+        raise FieldReassignError( f"{type(x).__name__} object {x!r} in the hierarchy of {type(s).__name__} has no name: "
+                                   "it was added to a list after the list had been assigned to a field.\n"
+                                   "Suggestion: build the list first, then assign it ( s.x = [ ... ] ), or use s.x += [ obj ]." )
 
   def elaborate( s ):
     s._elaborate_construct()
